@@ -20,6 +20,8 @@ TEXT = {
     "C06": ("model_checking", "at every commit decision the voters of the configuration in force are counted on their flushed prefixes (segment headers of the real logs); bounded exhaustive on the spec incl. 1<->2 voter reconfigurations", "5.C06"),
     "C08": ("model_checking", "membership requests (add/promote/demote/remove/force-remove, two edits per request) in the bounded model; one-voter-delta and introduce-only-when-safe evaluated at the instant the leader changes configuration (tracer point)", "5.C08"),
     "C11": ("model_checking", "only voters campaign/lead, promotion only after a completed round, demoted leader steps down, removed node stops only after commit: action predicates on spec steps and on observed real steps", "5.C11"),
+    "C09": ("model_checking", "snapshot goroutine, FSM queue, compaction on segment boundaries, log views of replications and snapshot installation are modelled step by step; snapshot contents = committed updates, FSM = replay of the ledger, and no replication task dies on an invalidated view - on the bounded model and on real nodes (1 KiB segments, gated snapshot goroutine)", "5.C09"),
+    "C12": ("model_checking", "every interleaving of the snapshot request with commits and FSM progress in the bounded model; on real code the .meta file is decoded after every step and compared with the ledger of committed configuration entries", "5.C12"),
     "C19": ("model_checking", "ordering and monotonicity of (term, commit, applied, snapshot, config indexes) on every state of the bounded model and every observed real state", "5.C19"),
 }
 
